@@ -87,7 +87,9 @@ func rangeLoops(f *core.Func) []rangeLoop {
 	return out
 }
 
-func within(outer, inner ast.Node) bool { return outer.Pos() <= inner.Pos() && inner.End() <= outer.End() }
+func within(outer, inner ast.Node) bool {
+	return outer.Pos() <= inner.Pos() && inner.End() <= outer.End()
+}
 
 // mentionsSel: does n contain a selector with the given field/method name?
 func mentionsSel(n ast.Node, name string) bool {
